@@ -124,6 +124,36 @@ class StubSim(mosaik_api_v3.Simulator):
         self.finalized += 1
         self.run.rec("finalize", self.sid)
 
+    def event_setter(self):
+        """Remote only (called by mosaik_api_v3.run_simulator): set external events at
+        instants and for times planned in the spec."""
+        import asyncio
+        run = self.run
+        plan = (self.spec or {}).get("events") or []
+        last = 0.0
+        for ev in plan:
+            yield asyncio.sleep(max(0.0, ev["at"] - last))
+            last = ev["at"]
+            if run.world is None or getattr(run, "finished", False):
+                return
+            t = ev.get("t")
+            if ev.get("kind") == "future":
+                # a time that is still in the future when the request reaches mosaik: the time
+                # step current now (measured generously from the call of run()) plus a margin
+                # covering the request's latency
+                rt = self.spec["rt"]
+                t0 = next((v for h, v in zip(run.hist.rec, run.hist.vt) if h[0] == "run_called"), 0.0)
+                import math
+                now_t = math.ceil((run.loop.time() - t0) / rt["period"] - 1e-12)
+                t = now_t + rt["margin"] + ev.get("dt", 0)
+            q = run.rec("async_call", self.sid, "set_event", t, None)
+            try:
+                yield self.mosaik.set_event(t)
+                run.rec("async_done", self.sid, "set_event", q, None)
+            except Exception as e:  # noqa: BLE001
+                run.rec("async_err", self.sid, "set_event", q, type(e).__name__,
+                        getattr(e, "remote_type", None), str(e)[:200])
+
     # -------------------------------------------------------------- behaviour
     def _step_impl(self, time, inputs):
         beh = self.spec["beh"]
